@@ -238,6 +238,455 @@ class Units:
         return self.attr_memo[key]
 
 
+def _taken_in(recv):
+    """text of the unit the bare numbers of an extraction are expressed in, when the receiver says so: the receiver's
+    own series (self.value…) -> self.unit; ….to(U)… / ….pint.to(U)… -> U"""
+    x = recv
+    while True:
+        if isinstance(x, ast.Attribute) and x.attr in ("values", "pint", "data", "_data", "magnitude"):
+            x = x.value
+        elif isinstance(x, ast.Subscript):
+            x = x.value
+        elif isinstance(x, ast.Call) and isinstance(x.func, ast.Attribute) and x.func.attr == "to" and len(x.args) == 1:
+            return norm(x.args[0])
+        elif isinstance(x, ast.Call) and isinstance(x.func, ast.Attribute) and x.func.attr in ("reindex", "to_numpy", "fillna", "copy"):
+            x = x.func.value
+        else:
+            break
+    return "self.unit" if norm(x) == "self.value" else None
+
+
+def default_sink_of(n, accessor_names=()):
+    """the node whose `.value` is the receiver of an extraction of bare numbers, or None"""
+    sink = None
+    if isinstance(n, ast.Attribute) and n.attr in ("magnitude", "m", "_data"):
+        sink = n
+    elif isinstance(n, ast.Attribute) and n.attr in accessor_names and isinstance(n.ctx, ast.Load) \
+            and not (isinstance(n.value, ast.Name) and n.value.id == "self"):
+        sink = n      # an inlined accessor read on another object
+    elif isinstance(n, ast.Attribute) and n.attr == "data" and isinstance(n.value, ast.Attribute) \
+            and n.value.attr == "values":
+        sink = n
+    elif isinstance(n, ast.Call) and norm(n.func) in ("np.full", "numpy.full", "np.full_like") and (
+            len(n.args) >= 2 or any(k.arg == "fill_value" for k in n.keywords)):
+        # a pint quantity handed to numpy as fill value loses its unit: np.full(n, q) keeps q's magnitude in
+        # whatever unit it was typed in (500 percent fills with 500)
+        fill = n.args[1] if len(n.args) >= 2 else next(k.value for k in n.keywords if k.arg == "fill_value")
+        if isinstance(fill, ast.Attribute) and fill.attr == "value":
+            sink = fill
+    elif isinstance(n, ast.Call) and isinstance(n.func, ast.Attribute) and n.func.attr == "to_numpy":
+        # only when it is not already the continuation of another sink
+        if not any(isinstance(x, ast.Attribute) and x.attr in ("magnitude", "_data", "data") for x in ast.walk(n.func.value)):
+            sink = n.func
+    return sink
+
+
+def _series_root(recv):
+    """text of the explainable whose frame the receiver of an extraction reads (`X` of X.value[…]…), or None"""
+    x = recv
+    while True:
+        if isinstance(x, ast.Attribute) and x.attr in ("values", "pint", "data", "_data", "magnitude"):
+            x = x.value
+        elif isinstance(x, ast.Subscript):
+            x = x.value
+        elif isinstance(x, ast.Call) and isinstance(x.func, ast.Attribute) and x.func.attr in ("to", "reindex", "to_numpy", "fillna", "copy"):
+            x = x.func.value
+        else:
+            break
+    if isinstance(x, ast.Attribute) and x.attr == "value":
+        return norm(x.value)
+    return None
+
+
+class MagnitudeFlow:
+    """Where the bare numbers taken out of unit-carrying series go inside one function. Statement-ordered walk with one
+    environment {local: set of (extraction id, unit text, index text)}; branches are joined; `if A.index.equals(B.index)`
+    (also through a small helper of the class) is remembered inside its body.
+      ok            {id(extraction node): unit} — reaches a PintArray(…, dtype=<that unit>) through equivariant
+                    operations only (index alignment with zero fill, +, -, element-wise max / min / abs)
+      escaped       ids of extractions that (also) reach anything else
+      elementwise   [(node, [operand sets])] the two-array operations met
+      misaligned    [(node, index texts)] element-wise operations whose operands are not on one index
+      mixed_units   [(node, unit texts)] element-wise operations whose operands are not in one unit"""
+
+    def __init__(self, fn, sink_of, tables=None, find_method=None):
+        self.ok, self.escaped, self.alias, self.spelled, self.roots = {}, set(), {}, {}, {}
+        self.elementwise, self.misaligned, self.mixed_units, self.untraced = [], [], [], []
+        self.fn, self.sink_of, self.find_method = fn, sink_of, find_method
+        from ..astutil import expanded as _exp
+        self._exp = lambda e: _exp(e, fn)
+        # locals bound to a numpy function out of a literal table: `f = {"max": np.maximum, "min": np.minimum}.get(k)` / `[k]`
+        self.callables = {}
+        for a_ in ast.walk(fn):
+            if isinstance(a_, ast.Assign) and len(a_.targets) == 1 and isinstance(a_.targets[0], ast.Name):
+                v_ = a_.value
+                alts = [v_.body, v_.orelse] if isinstance(v_, ast.IfExp) else None
+                if alts and all(isinstance(x, ast.Attribute) and isinstance(x.value, ast.Name) and x.value.id in ("np", "numpy")
+                                for x in alts):
+                    self.callables[a_.targets[0].id] = {x.attr for x in alts}
+                    continue
+                tab = None
+                if isinstance(v_, ast.Call) and isinstance(v_.func, ast.Attribute) and v_.func.attr == "get" and len(v_.args) == 1:
+                    tab = v_.func.value
+                elif isinstance(v_, ast.Subscript):
+                    tab = v_.value
+                if isinstance(tab, ast.Name) and tables is not None:
+                    tab = tables.get(tab.id)
+                if isinstance(tab, ast.Dict) and tab.values and all(
+                        isinstance(x, ast.Attribute) and isinstance(x.value, ast.Name) and x.value.id in ("np", "numpy")
+                        for x in tab.values):
+                    self.callables[a_.targets[0].id] = {x.attr for x in tab.values}
+        self.facts = []          # stack of sets of frozenset({index text, index text}) known equal
+        self.run(fn.body, {})
+        for i, behind in self.alias.items():
+            if behind and all(b in self.ok and b not in self.escaped for b in behind):
+                self.ok[i] = self.ok[next(iter(behind))]
+            else:
+                self.escaped.add(i)
+
+    ZERO = ("zeros", "*", "*")
+
+    @staticmethod
+    def zero(e):
+        return isinstance(e, ast.Constant) and e.value == 0 and not isinstance(e.value, bool)
+
+    def _map_back(self, orig, copy, names):
+        """a copy of `orig` with some names spelled out: its nodes stand for the original ones (site identities)"""
+        if orig is copy:
+            return
+        if isinstance(orig, ast.Name) and orig.id in names:
+            return
+        self.spelled[id(copy)] = self.spelled.get(id(orig), id(orig))
+        for (f1, v1), (f2, v2) in zip(ast.iter_fields(orig), ast.iter_fields(copy)):
+            if isinstance(v1, ast.AST) and isinstance(v2, ast.AST):
+                self._map_back(v1, v2, names)
+            elif isinstance(v1, list) and isinstance(v2, list) and len(v1) == len(v2):
+                for a_, b_ in zip(v1, v2):
+                    if isinstance(a_, ast.AST) and isinstance(b_, ast.AST):
+                        self._map_back(a_, b_, names)
+
+    def site(self, e):
+        sk = self.sink_of(e)
+        if sk is None:
+            return None
+        recv = self._exp(sk.value)
+        u = _taken_in(recv)
+        root = _series_root(recv)
+        if u is None and root is not None:
+            u = f"{root}.unit"
+        idx = f"{root}.value.index" if root is not None else None
+        sid = self.spelled.get(id(e), id(e))
+        self.roots.setdefault(sid, set()).add(root)
+        # an index alignment already in the receiver
+        for c in ast.walk(recv):
+            if isinstance(c, ast.Call) and isinstance(c.func, ast.Attribute) and c.func.attr == "reindex" and c.args:
+                idx = norm(self._exp(c.args[0]))
+        return (sid, u, idx)
+
+    def kill(self, e, env):
+        for x in ast.walk(e):
+            st = self.site(x) if isinstance(x, (ast.Attribute, ast.Call)) else None
+            if st is not None:
+                self.escaped.add(st[0])
+            if isinstance(x, ast.Name) and x.id in env and x.id != "__facts__":
+                self.escaped.update(i for i, _, _ in env[x.id])
+        return set()
+
+    def equal_indexes(self, a, b, env):
+        return a == b or a == "*" or b == "*" or frozenset((a, b)) in env.get("__facts__", ())
+
+    def combine(self, node, parts, env):
+        """element-wise operation on several arrays: one unit, one index"""
+        real = [p for p in parts if p]
+        if len(real) >= 2:
+            self.elementwise.append((node, parts))
+            units = sorted({u for p in real for _, u, _ in p if u != "*"}, key=str)
+            if len(units) > 1:
+                self.mixed_units.append((node, units))
+            idxs = sorted({ix for p in real for _, _, ix in p if ix != "*"}, key=str)
+            if any(not self.equal_indexes(a, b, env) for a in idxs for b in idxs):
+                self.misaligned.append((node, idxs))
+        return set().union(*parts) if parts else set()
+
+    def ev(self, e, env):
+        zero, kill, ev = self.zero, self.kill, self.ev
+        st = self.site(e) if isinstance(e, (ast.Attribute, ast.Call)) else None
+        if st is not None:
+            behind = ev(self.sink_of(e).value, env)
+            if behind:
+                # `.to_numpy()` / `.magnitude` of something that already is a bare array of the function: plumbing — the
+                # site stands or falls with the extractions behind it
+                self.alias[st[0]] = {i for i, _, _ in behind if i != "zeros"}
+                return behind
+            if st[1] is None:
+                return kill(e, env)
+            return {st}
+        if isinstance(e, ast.Call) and norm(e.func) in ("np.zeros", "numpy.zeros", "np.zeros_like", "np.full", "numpy.full") and (
+                norm(e.func).endswith(("zeros", "zeros_like")) or any(k.arg == "fill_value" and zero(k.value) for k in e.keywords)
+                or (len(e.args) >= 2 and zero(e.args[1]))):
+            return {self.ZERO}
+        if isinstance(e, ast.Name):
+            return set(env.get(e.id, ()))
+        if isinstance(e, ast.Constant):
+            return set()
+        if isinstance(e, ast.BinOp) and isinstance(e.op, (ast.Add, ast.Sub)):
+            l, r = ev(e.left, env), ev(e.right, env)
+            if l and r:
+                return self.combine(e, [l, r], env)
+            if (l and zero(e.right)) or (r and zero(e.left)):
+                return l | r
+            return kill(e, env) if (l or r) else set()
+        if isinstance(e, ast.BinOp) and isinstance(e.op, (ast.Mult, ast.Div)):
+            l, r = ev(e.left, env), ev(e.right, env)
+            if bool(l) != bool(r) and not (r and isinstance(e.op, ast.Div)):
+                # bare numbers scaled by a plain factor: still that series' numbers, no longer in a stated unit
+                return {(i, "?" if i != "zeros" else "*", ix) for i, _, ix in (l or r)}
+            return kill(e, env) if (l or r) else set()
+        if isinstance(e, ast.UnaryOp) and isinstance(e.op, (ast.USub, ast.UAdd)):
+            return ev(e.operand, env)
+        if isinstance(e, ast.IfExp):
+            if ev(e.test, env):
+                kill(e.test, env)
+            return ev(e.body, env) | ev(e.orelse, env)
+        if isinstance(e, ast.Call) and isinstance(e.func, ast.Attribute):
+            f = e.func
+            if isinstance(f.value, ast.Name) and f.value.id in ("np", "numpy"):
+                if f.attr in EQUIVARIANT_NP | {"add", "subtract"}:
+                    parts = [ev(a, env) for a in e.args]
+                    if all(p or zero(a) for p, a in zip(parts, e.args)) and not e.keywords:
+                        return self.combine(e, parts, env)
+                    if any(parts):
+                        self.untraced.append(e)
+                    return kill(e, env)
+                if any(ev(a, env) for a in e.args):
+                    return kill(e, env)
+                return set()
+            recv = ev(f.value, env)
+            if recv:
+                if f.attr in ("to_numpy", "copy") and not e.args:
+                    return recv
+                if f.attr in ("reindex", "fillna"):
+                    fills = [k.value for k in e.keywords if k.arg in ("fill_value", "value")] + (e.args if f.attr == "fillna" else [])
+                    if all(zero(x) for x in fills) and (fills or f.attr == "reindex") and not any(
+                            ev(a, env) for a in e.args if not zero(a)):
+                        if f.attr == "reindex" and e.args:
+                            ix = norm(self._exp(e.args[0]))
+                            return {(i, u, ix if i != "zeros" else "*") for i, u, _ in recv}
+                        return recv
+                return kill(e, env)
+        if isinstance(e, ast.Call) and isinstance(e.func, ast.Name) and e.func.id in self.callables:
+            # a local that names one of several numpy functions picked from a table: equivariant when all of them are
+            if self.callables[e.func.id] <= EQUIVARIANT_NP and not e.keywords:
+                parts = [ev(a, env) for a in e.args]
+                if all(parts):
+                    return self.combine(e, parts, env)
+                if any(parts):
+                    self.untraced.append(e)
+            return kill(e, env)
+        if isinstance(e, ast.Call) and norm(e.func) == "pint_pandas.PintArray" and e.args:
+            arg = ev(e.args[0], env)
+            dt = next((norm(k.value) for k in e.keywords if k.arg == "dtype"), norm(e.args[1]) if len(e.args) > 1 else None)
+            for i, u, _ in arg:
+                if i == "zeros":
+                    continue
+                if u == dt:
+                    self.ok[i] = u
+                else:
+                    self.escaped.add(i)
+            return set()
+        if isinstance(e, (ast.Tuple, ast.List)):
+            return set().union(*[ev(x, env) for x in e.elts]) if e.elts else set()
+        if isinstance(e, (ast.Dict,)):
+            for v in e.values:
+                if v is not None and ev(v, env):
+                    kill(v, env)
+            return set()
+        if isinstance(e, ast.Call):
+            # any other call: arguments that carry bare numbers leave the analysis
+            for a in list(e.args) + [k.value for k in e.keywords]:
+                if ev(a, env):
+                    kill(a, env)
+            if isinstance(e.func, ast.Attribute) and ev(e.func.value, env):
+                kill(e.func.value, env)
+            return set()
+        if isinstance(e, (ast.Attribute, ast.Subscript, ast.Starred)):
+            inner = ev(e.value, env)
+            return kill(e, env) if inner else set()
+        if isinstance(e, (ast.Compare, ast.BoolOp, ast.BinOp, ast.UnaryOp, ast.JoinedStr, ast.FormattedValue)):
+            if isinstance(e, ast.Compare) and len(e.comparators) == 1 and (zero(e.comparators[0]) or zero(e.left)):
+                return set()
+            for ch in ast.iter_child_nodes(e):
+                if isinstance(ch, ast.expr) and ev(ch, env):
+                    kill(ch, env)
+            return set()
+        if isinstance(e, (ast.GeneratorExp, ast.ListComp, ast.SetComp, ast.DictComp, ast.Lambda)):
+            return kill(e, env)
+        return set()
+
+    @staticmethod
+    def spread(value_node):
+        """`a, *(f(m) for m in (x, y))` read as `a, f(x), f(y)`: list of (expression, {generator variable: source}) """
+        if not isinstance(value_node, (ast.Tuple, ast.List)):
+            return None
+        out = []
+        for x in value_node.elts:
+            if isinstance(x, ast.Starred):
+                g = x.value
+                if not (isinstance(g, (ast.GeneratorExp, ast.ListComp)) and len(g.generators) == 1 and not g.generators[0].ifs
+                        and isinstance(g.generators[0].target, ast.Name)
+                        and isinstance(g.generators[0].iter, (ast.Tuple, ast.List))):
+                    return None
+                out += [(g.elt, {g.generators[0].target.id: src}) for src in g.generators[0].iter.elts]
+            else:
+                out.append((x, {}))
+        return out
+
+    def assign(self, t, v, value_node, env):
+        ev, assign = self.ev, self.assign
+        if isinstance(t, ast.Name):
+            env[t.id] = v
+        elif isinstance(t, (ast.Tuple, ast.List)) and self.spread(value_node) is not None \
+                and len(self.spread(value_node)) == len(t.elts) and any(isinstance(x, ast.Starred) for x in value_node.elts):
+            from ..astutil import substitute as _subst
+            for tt, (expr, binds) in zip(t.elts, self.spread(value_node)):
+                elt = _subst(expr, binds) if binds else expr
+                self._map_back(expr, elt, set(binds))
+                assign(tt, ev(elt, env), elt, env)
+        elif isinstance(t, (ast.Tuple, ast.List)):
+            # element-wise forms: `a, b = x, y`, `a, b = (f(m) for m in (x, y))`, `a, b = x.align(y, fill_value=0)`
+            if isinstance(value_node, (ast.Tuple, ast.List)) and len(value_node.elts) == len(t.elts):
+                for tt, vv in zip(t.elts, value_node.elts):
+                    assign(tt, ev(vv, env), vv, env)
+            elif isinstance(value_node, ast.GeneratorExp) and len(value_node.generators) == 1 \
+                    and not value_node.generators[0].ifs and isinstance(value_node.generators[0].target, ast.Name) \
+                    and isinstance(value_node.generators[0].iter, (ast.Tuple, ast.List)) \
+                    and len(value_node.generators[0].iter.elts) == len(t.elts):
+                g = value_node.generators[0]
+                from ..astutil import substitute as _subst
+                for tt, src in zip(t.elts, g.iter.elts):
+                    elt = _subst(value_node.elt, {g.target.id: src})     # the element with the variable spelled out
+                    self._map_back(value_node.elt, elt, {g.target.id})
+                    assign(tt, ev(elt, env), elt, env)
+            elif isinstance(value_node, ast.Call) and isinstance(value_node.func, ast.Attribute) and value_node.func.attr == "align" \
+                    and len(value_node.args) == 1 and len(t.elts) == 2 \
+                    and all(self.zero(k.value) for k in value_node.keywords if k.arg == "fill_value"):
+                ix = f"aligned@{value_node.lineno}:{value_node.col_offset}"
+                for tt, src in zip(t.elts, (value_node.func.value, value_node.args[0])):
+                    assign(tt, {(i, u, ix) for i, u, _ in ev(src, env)}, None, env)
+            else:
+                for tt in t.elts:
+                    assign(tt, set(v), None, env)
+        elif v:
+            self.escaped.update(i for i, _, _ in v)
+
+    def index_facts(self, test):
+        """pairs of index texts a test establishes as equal when it holds: `A.equals(B)` as the test or one of its
+        `and`-ed parts, also behind a small helper of the class"""
+        from ..astutil import straightline_value
+        out = set()
+        parts = test.values if isinstance(test, ast.BoolOp) and isinstance(test.op, ast.And) else [test]
+        for p in parts:
+            if isinstance(p, ast.Call) and self.find_method is not None:
+                v = straightline_value(p, self.find_method)
+                if v is not None:
+                    out |= self.index_facts(v)
+                    continue
+            if isinstance(p, ast.Call) and isinstance(p.func, ast.Attribute) and p.func.attr == "equals" and len(p.args) == 1:
+                out.add(frozenset((norm(self._exp(p.func.value)), norm(self._exp(p.args[0])))))
+        return out
+
+    def run(self, stmts, env):
+        """the environments at the end of stmts, one per path through its branches (paths that return / raise end
+        there); beyond 64 paths they are joined into one"""
+        envs = [env]
+        for st in stmts:
+            nxt = []
+            for e in envs:
+                nxt += self.step(st, e)
+            if len(nxt) > 64:
+                joined = {}
+                for e in nxt:
+                    for k, v in e.items():
+                        if k != "__facts__":
+                            joined[k] = joined.get(k, set()) | set(v)
+                nxt = [joined]
+            envs = nxt
+            if not envs:
+                break
+        return envs
+
+    def step(self, st, env):
+        ev, kill, assign, run = self.ev, self.kill, self.assign, self.run
+        if isinstance(st, ast.Assign):
+            structured = isinstance(st.targets[0], (ast.Tuple, ast.List)) and (
+                isinstance(st.value, (ast.Tuple, ast.List, ast.GeneratorExp)) or (
+                    isinstance(st.value, ast.Call) and isinstance(st.value.func, ast.Attribute) and st.value.func.attr == "align"))
+            v = set() if structured else ev(st.value, env)
+            for t in st.targets:
+                assign(t, v, st.value, env)
+        elif isinstance(st, ast.AugAssign):
+            v = ev(st.value, env)
+            if isinstance(st.target, ast.Name) and isinstance(st.op, (ast.Add, ast.Sub)) and v and env.get(st.target.id):
+                env[st.target.id] = self.combine(st, [env[st.target.id], v], env)
+            elif v:
+                self.escaped.update(i for i, _, _ in v)
+        elif isinstance(st, ast.If):
+            if ev(st.test, env):
+                kill(st.test, env)
+            e1 = dict(env)
+            e1["__facts__"] = frozenset(env.get("__facts__", ())) | frozenset(self.index_facts(st.test))
+            return run(st.body, e1) + run(st.orelse, dict(env))
+        elif isinstance(st, (ast.For, ast.While)):
+            if isinstance(st, ast.For) and ev(st.iter, env):
+                kill(st.iter, env)
+            envs = [env]
+            for _ in range(2):
+                envs = [e2 for e in envs for e2 in run(st.body, dict(e))] or [env]
+            joined = dict(env)
+            for e in envs:
+                for k, v in e.items():
+                    if k != "__facts__":
+                        joined[k] = set(joined.get(k, ())) | set(v)
+            return run(st.orelse, joined)
+        elif isinstance(st, ast.Try):
+            out = run(st.body, dict(env))
+            for h in st.handlers:
+                out += run(h.body, dict(env))
+            out = [e2 for e in out for e2 in run(st.orelse, e)] if st.orelse else out
+            return [e2 for e in out for e2 in run(st.finalbody, e)] if st.finalbody else out
+        elif isinstance(st, ast.With):
+            return run(st.body, env)
+        elif isinstance(st, ast.Expr):
+            v = ev(st.value, env)
+            if v:
+                self.escaped.update(i for i, _, _ in v)
+        elif isinstance(st, ast.Return):
+            if st.value is not None:
+                v = ev(st.value, env)
+                if v:
+                    self.escaped.update(i for i, _, _ in v)
+            return []
+        elif isinstance(st, (ast.Raise, ast.Assert)):
+            for ch in ast.iter_child_nodes(st):
+                if isinstance(ch, ast.expr) and ev(ch, env):
+                    kill(ch, env)
+            if isinstance(st, ast.Raise):
+                return []
+        elif isinstance(st, (ast.Continue, ast.Break)):
+            return [env]
+        return [env]
+
+
+def _magnitude_flow(fn, sink_of, tables=None, find_method=None):
+    mf = MagnitudeFlow(fn, sink_of, tables, find_method)
+    return mf.ok, mf.escaped
+
+
+def module_dict_tables(tree):
+    return {st_.targets[0].id: st_.value for st_ in tree.body if isinstance(st_, ast.Assign)
+            and len(st_.targets) == 1 and isinstance(st_.targets[0], ast.Name) and isinstance(st_.value, ast.Dict)}
+
+
 def _strip(e):
     """receiver of an extraction without the pandas plumbing"""
     while True:
@@ -306,27 +755,10 @@ def r_mag(E):
                     ch._parent = n_
     for mod, (rel, tree0, src) in sorted(pm.modules.items()):
         tree = views[mod]
+        sink_of = lambda n_, _an=accessor_names: default_sink_of(n_, _an)
+        flow_memo = {}
         for n in ast.walk(tree):
-            sink = None
-            if isinstance(n, ast.Attribute) and n.attr in ("magnitude", "m", "_data"):
-                sink = n
-            elif isinstance(n, ast.Attribute) and n.attr in accessor_names and isinstance(n.ctx, ast.Load) \
-                    and not (isinstance(n.value, ast.Name) and n.value.id == "self"):
-                sink = n      # an inlined accessor read on another object
-            elif isinstance(n, ast.Attribute) and n.attr == "data" and isinstance(n.value, ast.Attribute) \
-                    and n.value.attr == "values":
-                sink = n
-            elif isinstance(n, ast.Call) and norm(n.func) in ("np.full", "numpy.full", "np.full_like") and (
-                    len(n.args) >= 2 or any(k.arg == "fill_value" for k in n.keywords)):
-                # a pint quantity handed to numpy as fill value loses its unit: np.full(n, q) keeps q's magnitude in
-                # whatever unit it was typed in (500 percent fills with 500)
-                fill = n.args[1] if len(n.args) >= 2 else next(k.value for k in n.keywords if k.arg == "fill_value")
-                if isinstance(fill, ast.Attribute) and fill.attr == "value":
-                    sink = fill
-            elif isinstance(n, ast.Call) and isinstance(n.func, ast.Attribute) and n.func.attr == "to_numpy":
-                # only when it is not already the continuation of another sink
-                if not any(isinstance(x, ast.Attribute) and x.attr in ("magnitude", "_data", "data") for x in ast.walk(n.func.value)):
-                    sink = n.func
+            sink = sink_of(n)
             if sink is None:
                 continue
             if isinstance(sink, ast.Attribute) and sink.attr == "m" and not isinstance(getattr(sink, "ctx", None), ast.Load):
@@ -421,6 +853,15 @@ def r_mag(E):
                         verdict = "equivariant operation re-wrapped in the receiver's own unit"
                     elif all(o in EQUIVARIANT_NP | UNIT_PARAMETRIC_NP for o in ops):
                         verdict = f"unit-parametric ({'/'.join(ops)}): checked at each call site"
+            # 5. the bare numbers flow, through equivariant operations only (index alignment with zero fill, +, -,
+            #    element-wise max / min / abs), into a PintArray in the very unit they were taken in
+            if verdict is None:
+                if id(fn) not in flow_memo:
+                    flow_memo[id(fn)] = _magnitude_flow(fn, sink_of, module_dict_tables(tree),
+                                                        pm.helper_finder(cls.name) if cls is not None else None)
+                ok_sites, escaped = flow_memo[id(fn)]
+                if id(n) in ok_sites and id(n) not in escaped:
+                    verdict = f"flows through equivariant operations into a PintArray in the unit it was taken in ({ok_sites[id(n)]})"
             key = f"{rel}:{q} :: {norm(n if isinstance(n, ast.Attribute) else n)[:90]}"
             if verdict is None:
                 res.findings.append(Finding(
